@@ -41,7 +41,12 @@ ClockSpanMenu == <<
     CS(0, 1440, 0, FALSE),       \* "-"  (whole day)
     CS(0, 1440, 2, TRUE),        \* "~/2"
     \* beyond the DESIGN menu: a split span that crosses midnight
-    CS(1380, 60, 2, TRUE)        \* 23:00~01:00/2
+    CS(1380, 60, 2, TRUE),       \* 23:00~01:00/2
+    \* splits that do not divide the span into whole minutes
+    CS(540, 600, 7, FALSE),      \* 09:00-10:00/7
+    CS(540, 600, 8, TRUE),       \* 09:00~10:00/8
+    CS(0, 1440, 7, FALSE),       \* 00:00-24:00/7
+    CS(540, 660, 9, TRUE)        \* 09:00~11:00/9
 >>
 
 NWS == IF "VERIF_NWS" \in DOMAIN IOEnv THEN atoi(IOEnv.VERIF_NWS) ELSE Len(WeekSpanMenu)
@@ -54,7 +59,7 @@ OrderedLists(menu, n) == {<<>>} \cup {<<menu[i]>> : i \in 1..n}
 EventSets == {[ws |-> w, cs |-> c] : w \in OrderedLists(WeekSpanMenu, NWS), c \in OrderedLists(ClockSpanMenu, NCS)}
              \ {[ws |-> <<>>, cs |-> <<>>]}
 
-ASSUME \A es \in EventSets : \A j \in 1..Len(es.cs) : SplitDefined(es.cs[j])
+ASSUME \A j \in 1..Len(ClockSpanMenu) : PartsInsideSpan(ClockSpanMenu[j])
 ASSUME JsonSerialize(IOEnv.VERIF_OUT, [eventsets |-> EventSets])
 
 Init == x = 0
